@@ -110,6 +110,15 @@ def roundtrip(versions, shapes):
                     w.check(w.eq(d["reboot"], False), f"{name}: reboot request resurrected by a load")
             w.check(w.eq(P.snapshot(via_json), P.snapshot(via_pickle)),
                     "json and pickle restore different states")
+            # base case of the induction: a loaded state (and the empty gateway) satisfies Inv
+            for name, got in (("json", via_json), ("pickle", via_pickle)):
+                g2 = C.make_gateway(w, version)
+                C.check_inv(w, g2)
+                g2.gw.sensors.update(got)
+                try:
+                    C.check_inv(w, g2)
+                except Exception as exc:
+                    w.escaped(exc, f"{name}: Inv evaluation on the loaded state raised")
             w.goal("roundtrip")
     return fn
 
